@@ -16,6 +16,7 @@ import GoZero.C13.ProofsConc
 import GoZero.C13.ProofsJoin
 import GoZero.C13.ProofsPub
 import GoZero.C13.ProofsBuild
+import GoZero.C13.ProofsMulti
 namespace GoZero.C13
 open Spec
 
@@ -420,6 +421,91 @@ theorem shared_snapshot_shuffle_corrupts :
     Conc.readAcrossSwap [10, 20, 30] 1 0 2 = [10, 20, 10]
     ∧ Conc.racingSwaps [10, 20, 30] 0 1 0 2 = [30, 10, 10] := by decide
 
+/-! ### round 5: several watched keys on one cluster; re-registration with failing etcd calls -/
+
+/-- the start state of a cluster whose keys are all watched by ordinary (`excl s = false`) / exclusive subscribers -/
+def MState.start (excl : Nat → Bool) : MState := fun s => { cont := Container.new (excl s) }
+
+/-- **Several watched keys, one cluster.**  For every history of watch responses / compaction reloads on any of the
+keys and reconnects (`cluster.reload`: every watched key is loaded again, in any order), every ordinary subscriber shows
+exactly the registry of ITS key — the registry that the key's own events and the reconnect snapshots of its key
+describe; what happens to the other keys has no influence. -/
+theorem multi_view_equals_registry (excl : Nat → Bool) (evs : List MEv) (s : Nat) (hm : MValid evs) (hs : excl s = false)
+    (hv : ValidHist Fix.fixed [] (proj s evs)) :
+    (∀ v, v ∈ view (mrun Fix.fixed true (MState.start excl) evs s).cont ↔ (Reg.run (proj s evs)).Shows v)
+    ∧ (view (mrun Fix.fixed true (MState.start excl) evs s).cont).Nodup := by
+  have : mrun Fix.fixed true (MState.start excl) evs s = run Fix.fixed false (proj s evs) := by
+    rw [mrun_proj Fix.fixed evs _ s hm]; simp [run, MState.start, hs]
+  rw [this]
+  exact view_equals_registry _ hv
+
+/-- the same for an exclusive subscriber on one of the keys -/
+theorem multi_exclusive_view_equals_counting (excl : Nat → Bool) (evs : List MEv) (s : Nat) (hm : MValid evs) (hs : excl s = true) :
+    ∀ v, v ∈ view (mrun Fix.fixed true (MState.start excl) evs s).cont ↔ (Reg.counting (proj s evs)).Shows v := by
+  have : mrun Fix.fixed true (MState.start excl) evs s = run Fix.fixed true (proj s evs) := by
+    rw [mrun_proj Fix.fixed evs _ s hm]; simp [run, MState.start, hs]
+  rw [this]
+  exact (exclusive_view_equals_counting _).1
+
+/-- **Witness (the loop of seeded C13-8: the closure uses the shared range variable).**  Keys 0 and 1 are watched;
+key 0 holds 1 ↦ 5, key 1 holds 2 ↦ 6.  While the connection is down key 0's registration disappears.  After the
+reconnect only the last key of the list is loaded: key 0's subscriber still shows 5, its registry is empty. -/
+theorem shared_loop_variable_reloads_only_the_last_key :
+    let snap : Nat → Ev := fun k => if k = 0 then .reload [] [] [1] else .reload [(2, 6)] [] []
+    let evs : List MEv := [.on 0 (.put 1 5), .on 1 (.put 2 6), .reconnect [0, 1] snap]
+    view (mrun Fix.fixed false (MState.start fun _ => false) evs 0).cont = [5]
+    ∧ viewList (registry (proj 0 evs)) = []
+    ∧ view (mrun Fix.fixed true (MState.start fun _ => false) evs 0).cont = [] := by decide
+
+/-- **Re-registration is retried until it succeeds** (doKeepAlive: `break` leaves the `select`, the ticker loop goes on —
+Tie `tie_doKeepAliveRetries`).  Whatever attempts fail first (Grant, Put or KeepAlive errors, any number, any mix), at
+the first successful attempt the publisher is registered again under the lease of THAT attempt, a keep-alive
+goroutine runs again, etcd holds its value under its full key, and an ordinary subscriber shows the value. -/
+theorem reregistration_retries_until_success (p : Pub) (s : Store) (fails rest : List Attempt) (l : Nat)
+    (hf : ∀ a, a ∈ fails → a.isOk = false) (evs : List Ev) (hv : ValidHist Fix.fixed [] evs) :
+    let r := doKeepAlive true p s (fails ++ .ok l :: rest)
+    r.2.2 = true ∧ r.1.lease = l ∧ r.1.fullKey = pubKeyId p.id l ∧ r.1.value = p.value
+    ∧ r.2.1.get r.1.fullKey = some (p.value, l)
+    ∧ p.value ∈ view (run Fix.fixed false (evs ++ registerEvents r.1)).cont := by
+  obtain ⟨p0, s0, h, hid, hval⟩ := doKeepAlive_fails_then_ok p s fails l rest hf
+  intro r
+  have hr : r = (p0.register l, storePut s0 (p0.register l), true) := h
+  have hseen := (published_value_is_seen evs hv p0 l).1
+  rw [hr]
+  refine ⟨rfl, rfl, ?_, ?_, ?_, ?_⟩
+  · simp [Pub.register, hid]
+  · simp [Pub.register, hval]
+  · simp [storePut, Map.get_set, Pub.register, hval]
+  · rw [← hval]; exact hseen
+
+/-- the attempt list the driver builds for armed faults always ends in a registration -/
+theorem armed_faults_end_registered (p : Pub) (s : Store) (fg fp fk next : Nat) :
+    (doKeepAlive true p s (attemptsFor fg fp fk next)).2.2 = true
+    ∧ (doKeepAlive true p s (attemptsFor fg fp fk next)).1.lease = next + fp + fk := by
+  have hf : ∀ a, a ∈ List.replicate fg Attempt.grantErr ++ (List.range fp).map (fun i => Attempt.putErr (next + i))
+      ++ (List.range fk).map (fun i => Attempt.kaErr (next + fp + i)) → a.isOk = false := by
+    intro a ha
+    simp only [List.mem_append, List.mem_replicate, List.mem_map] at ha
+    rcases ha with (⟨_, rfl⟩ | ⟨_, _, rfl⟩) | ⟨_, _, rfl⟩ <;> rfl
+  have := reregistration_retries_until_success p s _ [] (next + fp + fk) hf [] trivial
+  unfold attemptsFor
+  exact ⟨this.1, this.2.1⟩
+
+/-- **Witness (the loop of seeded C13-7: `break` leaves the `for`).**  One failed attempt ends the loop: the publisher
+stays unregistered although the next attempt would have succeeded. -/
+theorem single_failure_ends_a_loop_without_retry :
+    (doKeepAlive false { id := 3, value := 40 } [] [.grantErr, .ok 105]).2.2 = false
+    ∧ (doKeepAlive false { id := 3, value := 40 } [] [.grantErr, .ok 105]).2.1 = []
+    ∧ (doKeepAlive true { id := 3, value := 40 } [] [.grantErr, .ok 105]).2.1 = [(3, (40, 105))] := by decide
+
+/-- what the failed attempts leave behind: a KeepAlive error leaves the key of that attempt in etcd (nobody renews
+it: it lives until the lease's TTL), Grant and Put errors leave nothing — `storeExpire` with the live leases removes
+exactly the orphans -/
+theorem failed_attempt_effects (p : Pub) (s : Store) (l : Nat) :
+    (p.attempt s .grantErr).2 = s ∧ (p.attempt s (.putErr l)).2 = s
+    ∧ (p.attempt s (.kaErr l)).2 = storePut s (p.register l)
+    ∧ (p.attempt s .grantErr).1.lease = 0 ∧ (p.attempt s (.putErr l)).1.lease = l := ⟨rfl, rfl, rfl, rfl, rfl⟩
+
 /-! ### Non-vacuity -/
 
 /-- a valid history with update in place, a shared value, a replayed put, and a reload that changes one key,
@@ -485,5 +571,21 @@ example : Reg.run sampleHist (({ id := 0, value := 40 } : Pub).register 105).ful
 /-- Build, non-vacuity: a quiescent run with two events, one of them during Build's update() -/
 example : let s := BuildConc.exec .listenerFirst true { view := [1] } [.apply [1, 2], .build, .build, .apply [2], .build, .wUpdate]
     BuildConc.Quiescent s ∧ s.pub = some [2] := by decide
+
+/-- several keys, non-vacuity: a valid history over keys 0 and 1 with a reconnect that loads both -/
+example : MValid [.on 0 (.put 1 5), .on 1 (.put 2 6), .reconnect [1, 0] (fun k => if k = 0 then .reload [] [] [1] else .reload [(2, 6)] [] [])] := by
+  simp [MValid]
+
+example : proj 0 [.on 0 (.put 1 5), .on 1 (.put 2 6), .reconnect [1, 0] (fun k => if k = 0 then .reload [] [] [1] else .reload [(2, 6)] [] [])]
+    = [.put 1 5, .reload [] [] [1]] := by simp [proj]
+
+/-- re-registration, non-vacuity: Grant fails, Put fails (lease 104), KeepAlive fails (lease 105: the key 105 stays
+behind for a publisher without id), then success with lease 106 -/
+example : doKeepAlive true { id := 0, value := 40 } [] [.grantErr, .putErr 104, .kaErr 105, .ok 106]
+    = ({ id := 0, value := 40, lease := 106, fullKey := 106 }, [(105, (40, 105)), (106, (40, 106))], true) := by decide
+
+example : attemptsFor 1 1 1 104 = [.grantErr, .putErr 104, .kaErr 105, .ok 106] := by decide
+
+example : storeExpire [(105, (40, 105)), (106, (40, 106))] [106] = [(106, (40, 106))] := by decide
 
 end GoZero.C13
